@@ -964,6 +964,11 @@ def _r3(ctx, pkg):
             continue
         gtxt = _guard_text(inst["guards"])
         gkey = "".join(gtxt.split())
+        # the key names the condition, not its spelling: the operands of a flat `or` / `and` in a fixed order
+        for op_ in (" or ", " and "):
+            other = " and " if op_ == " or " else " or "
+            if op_ in gtxt and other not in gtxt and "(" not in gtxt and " if " not in gtxt:
+                gkey = op_.strip().join(sorted("".join(x.split()) for x in gtxt.split(op_)))
         ctx.check(not gtxt, "R3", f"{key}:unconditional installation" + (f"[if {gkey}]" if gtxt else ""), (NF, inst["line"]),
                   "the network's lists are installed unconditionally" if not gtxt else
                   f"the installation is skipped when `{gtxt[:70]}` is false: a network with default (empty) lists inherits the tables of whichever "
